@@ -278,7 +278,7 @@ Qed.
 
 Lemma bind_memory_psame v s image res off : psame v (fst (bind_memory v s image res off)).
 Proof.
-  unfold bind_memory. destruct (res =? 0); [apply psame_refl|]. destruct (negb _); [apply psame_refl|].
+  unfold bind_memory. destruct (res =? 0); [apply psame_refl|]. destruct (negb _); [apply psame_refl|]. destruct (off <? 0); [apply psame_refl|].
   match goal with |- context [match ?t with OK _ => _ | ER _ => _ | PANIC => _ | STUCK => _ end] => destruct t as [o|code| |] end; try apply psame_refl.
   destruct (dev_bind _ _ _ _ _) as (m1 & code). apply psame_set_m.
 Qed.
@@ -632,7 +632,7 @@ Qed.
 
 Lemma bind_memory_dmin v s image res off : dmin v (fst (bind_memory v s image res off)).
 Proof.
-  unfold bind_memory. destruct (res =? 0); [apply dmin_refl|]. destruct (negb _); [apply dmin_refl|].
+  unfold bind_memory. destruct (res =? 0); [apply dmin_refl|]. destruct (negb _); [apply dmin_refl|]. destruct (off <? 0); [apply dmin_refl|].
   match goal with |- context [match ?t with OK _ => _ | ER _ => _ | PANIC => _ | STUCK => _ end] => destruct t as [o|code| |] end; try apply dmin_refl.
   destruct (dev_bind _ _ _ _ _) as (m1 & code). apply dmin_set_m.
 Qed.
@@ -729,7 +729,7 @@ Proof.
       pose proof (multi_allocate_inv c Hc (set_m v m2) [] a1 a2 a3 a4 a5 a6 a7 usage flags req pref ctb pool sb [slot] I2 Hnd Hdead) as MA;
       destruct (multi_allocate c (set_m v m2) a1 a2 a3 a4 a5 a6 a7 usage flags req pref ctb pool sb [slot]) as (v3 & r) end.
     destruct r as [[]|code| |]; auto; destruct MA as (_ & _ & C0 & _); (eapply dmin_trans; [apply dmin_set_m|apply dmin_frame'; exact C0]).
-  - unfold bind_memory. destruct (res =? 0); [apply dmin_refl|]. destruct (negb _); [apply dmin_refl|].
+  - unfold bind_memory. destruct (res =? 0); [apply dmin_refl|]. destruct (negb _); [apply dmin_refl|]. destruct (off <? 0); [apply dmin_refl|].
     match goal with |- context [match ?t with OK _ => _ | ER _ => _ | PANIC => _ | STUCK => _ end] => destruct t as [o|code| |] end; try apply dmin_refl; try exact I.
     destruct (dev_bind _ _ _ _ _) as (m1 & code). destruct (code =? 0); apply dmin_set_m.
   - unfold raw_create. destruct (dev_create_res (v_m v) image kind devreq) as ((m1 & code) & id). destruct (code =? 0); apply dmin_set_m.
